@@ -1,2 +1,74 @@
-(* C05 placeholder: statements are added below as they are proved. *)
-Require Import Cox.Num.Ops Cox.Model.Inside.
+(* C05 — 3-D point containment.
+   Model: Model/Inside.v (inside_halfspaces, inside_polyhedron = winding number with
+   lexicographic tie-breaking, inside_ellipsoid; cover / surface_dist2 = exact specs). *)
+From Coq Require Import Reals QArith Qreals List ZArith Bool Lra Permutation.
+Require Import Cox.Num.Ops Cox.Num.Transfer Cox.Geo.Vec Cox.Model.Mesh Cox.Model.Inside
+  Cox.Thm.InsideThm Cox.Thm.InsideTransfer Cox.Thm.MeshTransfer.
+Import ListNotations.
+
+(* convex: the normalised signed distance the code tests has the sign of the exact side value,
+   for every plane with non-zero normal *)
+Theorem C05_convex_normalisation :
+  forall N v0 p : vec3 R, (0 < vdot Rops N N)%R ->
+    let nn := sqrt (vdot Rops N N) in
+    let n := vscale Rops (/ nn)%R N in
+    (vdot Rops n p + - vdot Rops n v0 <= 0 <-> vdot Rops N (vsub Rops p v0) <= 0)%R.
+Proof. exact normalised_plane_test. Qed.
+Print Assumptions C05_convex_normalisation.
+
+(* convex: the test is membership in the intersection of the face half-spaces *)
+Theorem C05_convex_halfspaces :
+  forall (V : list (vec3 R)) F p,
+    inside_halfspaces Rops V F p = true <-> (forall f, In f F -> (face_side Rops V f p <= 0)%R).
+Proof. exact inside_halfspaces_spec. Qed.
+Print Assumptions C05_convex_halfspaces.
+
+(* sphere / ellipsoid: the norm test is the quadratic membership test *)
+Theorem C05_ellipsoid_norm_test :
+  forall c s p : vec3 R,
+    inside_ellipsoid Rops c s p = true <->
+    (sqrt (((vx p - vx c) / vx s) * ((vx p - vx c) / vx s)
+          + ((vy p - vy c) / vy s) * ((vy p - vy c) / vy s)
+          + ((vz p - vz c) / vz s) * ((vz p - vz c) / vz s)) <= 1)%R.
+Proof. exact inside_ellipsoid_is_norm_test. Qed.
+Print Assumptions C05_ellipsoid_norm_test.
+
+(* general polyhedra (partial): the winding-number answer does not depend on the order in which
+   the surface triangles are enumerated.  Equality with exact membership for arbitrary closed
+   meshes (a degree-theory statement) is NOT proved; it is decided per point by correspondence
+   with the exact covering number [cover]. *)
+Theorem C05_polyhedron_triangle_order_partial :
+  forall (p : vec3 R) (T1 T2 : list (@tri R)), Permutation T1 T2 ->
+    inside_polyhedron Rops p T1 = inside_polyhedron Rops p T2.
+Proof. exact inside_polyhedron_triangle_order. Qed.
+Print Assumptions C05_polyhedron_triangle_order_partial.
+
+Theorem C05_polyhedron_transfer :
+  forall p TT, inside_polyhedron Qops p TT = inside_polyhedron Rops (Q2R3 p) (map Q2Rt TT).
+Proof. exact inside_polyhedron_transfer. Qed.
+Print Assumptions C05_polyhedron_transfer.
+
+Theorem C05_convex_transfer :
+  forall V F p, inside_halfspaces Qops V F p = inside_halfspaces Rops (map Q2R3 V) F (Q2R3 p).
+Proof. exact inside_halfspaces_transfer. Qed.
+Print Assumptions C05_convex_transfer.
+
+(* a batch call is the element-wise map of single calls, in order: definitional in the model *)
+Theorem C05_batch_is_map :
+  forall (V : list (vec3 R)) F (ps : list (vec3 R)),
+    map (inside_halfspaces Rops V F) ps = map (fun p => inside_halfspaces Rops V F p) ps.
+Proof. reflexivity. Qed.
+
+(* non-vacuity: unit cube, a point inside, one outside, and a lattice point aligned with vertices *)
+Definition cubeV : list (vec3 Q) :=
+  [(0,0,0); (1,0,0); (1,1,0); (0,1,0); (0,0,1); (1,0,1); (1,1,1); (0,1,1)]%Q.
+Definition cubeT : list (nat*nat*nat) :=
+  [(0,2,1); (0,3,2); (4,5,6); (4,6,7); (0,1,5); (0,5,4); (1,2,6); (1,6,5);
+   (2,3,7); (2,7,6); (3,0,4); (3,4,7)]%nat.
+Example C05_cube :
+  let TT := resolve Qops cubeV cubeT in
+  inside_polyhedron Qops (1#2, 1#2, 1#2)%Q TT = true
+  /\ inside_polyhedron Qops (3#2, 1#2, 1#2)%Q TT = false
+  /\ inside_polyhedron Qops (1#2, 1#2, 2)%Q TT = false
+  /\ cover Qops (7#3, 22#7, 45#11)%Q (1#2, 1#2, 1#2)%Q TT = 1%Z.
+Proof. vm_compute. repeat split; reflexivity. Qed.
